@@ -298,15 +298,22 @@ theorem mech_state_after_newCells (kw : List String) (ops : List Op) (p : Path) 
   rfl
 
 /-- **the definitions of a reachable state are exactly those the accepted operations of the history made
-and no later accepted operation removed** (`SM.specDefs`: a fold over the history that consults the
-mechanism's state only for accept/refuse and for the name an unnamed cells gets; histories without
-`renameCells`, whose effect on the two names involved is stated only as a frame).  With
+and no later accepted operation removed** - for every history of the twelve operations (`SM.specDefs`: a
+fold over the history that consults the mechanism's state for accept/refuse, for the name an unnamed cells
+gets, and - for `renameCells` only - for which spaces hold a copy of the renamed cells).  With
 `mech_refines_derivation` and the base lists (`mech_accepted_effect`) the whole reachable state is a
 function of the history. -/
-theorem mech_definitions_from_history (kw : List String) (ops : List Op)
-    (hr : ∀ op ∈ ops, op.isRename = false) (a : Attr) (q : Path) (n : String) :
+theorem mech_definitions_from_history (kw : List String) (ops : List Op) (a : Attr) (q : Path) (n : String) :
     (St.run kw {} ops).defd a q n = specDefs kw {} (fun _ _ _ => none) ops a q n :=
-  defd_run kw ops hr a q n
+  defd_run kw ops a q n
+
+/-- **what an accepted `renameCells` does to the definitions**, completely (`SM.renameCells_full`) -/
+theorem mech_rename_effect (kw : List String) (ops : List Op) (p : Path) (old new : String) (st' : St)
+    (hop : (St.run kw {} ops).renameCells kw p old new = some st') (a : Attr) (q : Path) (n : String) :
+    st'.defd a q n =
+      if a = .cells ∧ q ∈ (St.run kw {} ops).renameTargets p old then renamedDef (St.run kw {} ops) old new q n
+      else (St.run kw {} ops).defd a q n :=
+  (renameCells_full kw _ st' (run_inv kw ops) p old new hop).2 a q n
 
 /-- **liveness of the plain case**: in every reachable state a cells under a valid name that is used for
 nothing can be created in every existing space, and is then defined there -/
@@ -362,6 +369,13 @@ example : specDefs [] {} (fun _ _ _ => none) (diamondOps ++ [.delCells ["A"] "f"
     = some 2 := by decide
 example : specDefs [] {} (fun _ _ _ => none) (diamondOps ++ [.delCells ["A"] "f", .delCells ["D"] "f"]) .cells ["A"] "f"
     = none := by decide
+-- renaming `A.f` to `g`: the derived copy in `B` follows, `C` keeps its own definition under the new name too
+-- (`D` derives `f` from `C`, not from `A`: it is not renamed but re-derived)
+example : (St.run [] {} diamondOps).renameTargets ["A"] "f" = [["A"], ["B"], ["C"]] := by decide
+example : (St.run [] {} (diamondOps ++ [.renameCells ["A"] "f" "g"])).mem .cells ["D"] "g"
+    = some { derived := true, payload := 2 } := by decide
+example : specDefs [] {} (fun _ _ _ => none) (diamondOps ++ [.renameCells ["A"] "f" "g"]) .cells ["C"] "g" = some 2 := by decide
+example : specDefs [] {} (fun _ _ _ => none) (diamondOps ++ [.renameCells ["A"] "f" "g"]) .cells ["A"] "f" = none := by decide
 -- an operation that is refused (`E(A, B)` has no linearisation)
 example : ((St.run [] {} diamondOps).step [] (.newSpace [] "E" [["A"], ["B"]] [])).2 = false := by decide
 
